@@ -309,7 +309,23 @@ func vConfigCase(out *vOut, c int) {
 	// drain: let the export through, let flush timers fire, everything accepted must come out and the size return to 0
 	var wantItems int64
 	close(gate)
-	time.Sleep(2 * time.Second)
+	// virtual time: flush timers fire, released producers get in, their batches flush in turn (one flush timeout each
+	// when the capacity is 1) - until nobody is blocked any more and everything has come out
+	for i := 0; i < 200; i++ {
+		time.Sleep(500 * time.Millisecond)
+		synctest.Wait()
+		mu.Lock()
+		blocked := 0
+		for _, x := range prods {
+			if !x.ret && !x.canc {
+				blocked++
+			}
+		}
+		mu.Unlock()
+		if sz, _ := vGauge(tt, "otelcol_exporter_queue_size"); blocked == 0 && sz == 0 {
+			break
+		}
+	}
 	out.Linef("op drain")
 	snapshot(-1)
 	mu.Lock()
